@@ -65,4 +65,13 @@ theorem run_facts {k : Kind} {ig : Bool} :
       · rw [h3, hg.1.2]
       · simp only [List.length_cons]; omega
 
+/-- the spec fold reports a caller cancellation as soon as the label occurs, and never forgets it -/
+theorem see_cc (ls : List Lbl) (g : Seen) :
+    (ls.foldl see g).cc = (g.cc || ls.contains .callerCancel) := by
+  induction ls generalizing g with
+  | nil => simp
+  | cons l ls ih =>
+    rw [List.foldl_cons, ih]
+    cases l <;> simp [see]
+
 end Haiway.Timeout
